@@ -197,7 +197,7 @@ pub fn replay(args: &[String]) {
 
 // ---------------------------------------------------------------- slot typing
 
-fn slot_step<T>(props: &mut Props, e: &Value, conf: T, w2: T, w3: T) -> Result<(), Value>
+fn slot_step<T>(props: &mut Props, e: &Value, conf: T, w2: T, w3: T, conf2: T) -> Result<(), Value>
 where
     T: des_net_utils::props::PropType + Clone + PartialEq + std::fmt::Debug,
 {
@@ -213,7 +213,8 @@ where
                         0 => None,
                         1 => Some(conf),
                         2 => Some(w2),
-                        _ => Some(w3),
+                        3 => Some(w3),
+                        _ => Some(conf2),
                     };
                     if got != exp {
                         return Err(json!({"field": "value read back", "expected": format!("{exp:?}"), "got": format!("{got:?}")}));
@@ -263,11 +264,16 @@ fn replay_slot(beh: &[Value]) -> Result<u64, Value> {
                 props.get_raw("k").clear();
                 Ok(())
             }
-            (_, "u32") => slot_step::<u32>(&mut props, e, 7, 2, 3),
-            (_, "i64") => slot_step::<i64>(&mut props, e, 7, 2, 3),
-            (_, "string") => slot_step::<String>(&mut props, e, "seven".into(), "two".into(), "three".into()),
-            (_, "bool") => slot_step::<bool>(&mut props, e, true, true, false),
-            (_, "f32") => slot_step::<f32>(&mut props, e, 7.0, 2.0, 3.0),
+            ("reconfig", y) => {
+                // a later configuration entry for the same key (what include_cfg does for existing modules)
+                props.set("k".into(), if y == "num" { serde_yml::Value::Number(9.into()) } else { serde_yml::Value::String("nine".into()) });
+                Ok(())
+            }
+            (_, "u32") => slot_step::<u32>(&mut props, e, 7, 2, 3, 9),
+            (_, "i64") => slot_step::<i64>(&mut props, e, 7, 2, 3, 9),
+            (_, "string") => slot_step::<String>(&mut props, e, "seven".into(), "two".into(), "three".into(), "nine".into()),
+            (_, "bool") => slot_step::<bool>(&mut props, e, true, true, false, true),
+            (_, "f32") => slot_step::<f32>(&mut props, e, 7.0, 2.0, 3.0, 9.0),
             _ => unreachable!(),
         };
         r.map_err(|mut m| {
